@@ -260,7 +260,13 @@ def judgeOne (sc : Scenario) (obs : Json) (o : Oracle) (b : Built) (res : Result
         let keysC := if !pOK then (cl.hdr.map (·.1)).filter (fun k => k != keyCL && k != "Content-Type")   -- a failure response / the last failed attempt's reply
           else if bodylessStatus sc.bStatus then (b.backendHdr.map (·.1) ++ adKeys).filter (· != "Content-Type")
           else b.backendHdr.map (·.1) ++ adKeys ++ [keyCE, keyVary]
-        let okC := c.err == "" && c.status == cl.status && hdrEqOn keysC cl.hdr c.hdr && c.frameOK
+        -- known finding C03-head-method-adapted: the client sent HEAD, the adaptor rewrote the method, net/http writes
+        -- the body (`bodyOnWire`); the model predicts exactly that framing error
+        let headAdapted := sc.method == "HEAD" && l.method != "HEAD"
+        let wantBody := bodyOnWire b.ops l.method cl
+        let okC := if headAdapted then
+            c.err == "" && c.status == cl.status && (if wantBody == 0 then c.frameOK else c.frameErr == "body-on-bodyless-response")
+          else c.err == "" && c.status == cl.status && hdrEqOn keysC cl.hdr c.hdr && c.frameOK
           && (nobody || (c.bodySum == cl.payload.content.sum
                 && (cl.hdr.get keyCL == [] || cl.hdr.get keyCL == [toString c.declared])))
         ((match attempts with | none => hits ≥ 1 | some n => hits == n && allSeen.length == n) && okB && okC, exp)
@@ -294,6 +300,8 @@ def judgeOne (sc : Scenario) (obs : Json) (o : Oracle) (b : Built) (res : Result
     | _ => ""
   let respSig : String :=
     if c.err != "" then "resp:unreadable:" ++ c.err
+    else if !c.frameOK && sc.method == "HEAD" && l.method != "HEAD" && c.frameErr == "body-on-bodyless-response" then
+      "resp:framing:body-sent-to-HEAD-client:method-adapted"
     else if !c.frameOK then "resp:framing:" ++ c.frameErr ++ featureSuffix sc
     else if !honest && hits ≥ 1 && c.status < 500 && !(sc.poolMax < 0 || (sc.poolMax == 0 && sc.proxyMax < 0))
         && sc.bBody.decl.toNat > sc.bBody.len && !nobody then
